@@ -32,7 +32,7 @@ Definition inj_os (o : on_setattr) : pyv :=
 Definition inj_cos (o : cls_on_setattr) : pyv :=
   match o with COsNone => PVNone | COsNoOp => PV_NO_OP | _ => PVOther 9 end.
 Definition inj_attr (a : attribute) : tattr :=
-  TA (injb (a_init a)) (injb (a_kw_only a)) (inj_dk (a_default a)) (inj_os (a_on_setattr a)).
+  TA (injb (a_init a)) (injb (a_kw_only a)) (inj_dk (a_default a)) (inj_os (a_on_setattr a)) PVNone.
 
 Definition exc_name (e : exc) : string :=
   match e with
@@ -120,7 +120,7 @@ Proof.
   induction l as [|a r IH]; intros h; [exists h; reflexivity|].
   cbn [map transform_attrs_loop1 order_ok_from]. unfold positional, has_default.
   remember (map inj_attr r) as R eqn:HR. unfold inj_attr.
-  cbn [t_init t_kw_only t_default t_on_setattr]. subst R.
+  cbn [t_init t_kw_only t_default t_on_setattr t_setattr]. subst R.
   destruct (a_init a), (a_kw_only a), h, (a_default a); cbn;
     first [ exact (IH true) | exact (IH false) | exists true; reflexivity ].
 Qed.
@@ -160,7 +160,7 @@ Proof.
   induction l as [|a r IH]; intros fz hc n.
   - exists n. cbn. rewrite andb_false_r. reflexivity.
   - cbn [map make_init_script_loop1 existsb]. remember (map inj_attr r) as R eqn:HR.
-    unfold inj_attr. cbn [t_init t_kw_only t_default t_on_setattr]. subst R.
+    unfold inj_attr. cbn [t_init t_kw_only t_default t_on_setattr t_setattr]. subst R.
     destruct (a_on_setattr a), fz, (a_init a), (a_default a), hc; cbn;
       first [ exact (IH _ _ _) | exists n; reflexivity ].
 Qed.
@@ -284,3 +284,56 @@ Lemma tie_pipe_injections : forall hs chs,
   pyv_is (inj_os (OsPipe hs)) PV_NO_OP = false /\ pyv_is (inj_os (OsPipe hs)) PVNone = false /\
   pyv_is (inj_cos (COsPipe chs)) PV_NO_OP = false /\ pyv_is (inj_cos (COsPipe chs)) PVNone = false.
 Proof. intros; repeat split; reflexivity. Qed.
+
+
+(** ** [define().wrap]: the on_setattr the builder is handed, and explicit hooks below a
+    frozen base.  The scan runs over ALL of [cls.__bases__] ([existsb]); CPython's layout
+    base [cls.__base__] is a separate input on which the result must not depend. *)
+
+(** a base class, as far as the scan reads it: is its [__setattr__] [_frozen_setattrs]? *)
+Definition inj_base (frozen_setattr : bool) : tattr :=
+  TA PVNone PVNone PVNone PVNone (if frozen_setattr then PV_FROZEN_SETATTRS else PVOther 12).
+
+(** class-level on_setattr with [_DEFAULT_ON_SETATTR] kept apart from other hook objects *)
+Definition inj_cos2 (o : cls_on_setattr) : pyv :=
+  match o with COsNone => PVNone | COsNoOp => PV_NO_OP | COsDefault => PV_DEFAULT_OS | _ => PVOther 9 end.
+
+Definition had_os (o : cls_on_setattr) : bool := match o with COsNone | COsNoOp => false | _ => true end.
+
+(** [builder_os] for define / frozen, as a function of the three things it reads *)
+Definition define_os (fz base_frozen : bool) (os : cls_on_setattr) : cls_on_setattr :=
+  if base_frozen then COsNoOp
+  else if negb fz then match os with COsNone => COsDefault | x => x end else os.
+
+Lemma model_define_os : forall o, is_def (o_api o) = true ->
+  builder_os o = define_os (frozen_arg o) (o_base_frozen o) (o_os o) /\
+  chk_define_pre o = if o_base_frozen o && had_os (o_os o) then Some XValue else None.
+Proof.
+  intros o H. unfold builder_os, chk_define_pre, define_os, had_on_setattr, had_os. rewrite H. cbn [andb].
+  split; [destruct (o_base_frozen o), (negb (frozen_arg o)), (o_os o); reflexivity | reflexivity].
+Qed.
+
+Lemma define_loop_spec : forall bs had v,
+  define_wrap_loop1 is_callable_std had (map inj_base bs) v =
+  if existsb (fun b => b) bs
+  then (if pyv_truthy had then PRaise (exc_name XValue) else PRet [PV_NO_OP])
+  else PRet [v].
+Proof.
+  induction bs as [|b r IH]; intros had v; [reflexivity|].
+  cbn [map define_wrap_loop1 existsb]. remember (map inj_base r) as R eqn:HR.
+  unfold inj_base. cbn [t_setattr]. subst R.
+  destruct b; cbn; [destruct (pyv_truthy had); reflexivity | exact (IH had v)].
+Qed.
+
+Lemma tie_define_prefix : forall (best : pyv) (fz : bool) os (bs : list bool),
+  define_wrap_prefix is_callable_std best (injb fz) (inj_cos2 os) (map inj_base bs) =
+  if existsb (fun b => b) bs && had_os os then PRaise (exc_name XValue)
+  else PRet [inj_cos2 (define_os fz (existsb (fun b => b) bs) os)].
+Proof.
+  intros best fz os bs. unfold define_wrap_prefix, define_os.
+  destruct os, fz; cbn;
+    repeat match goal with
+    | |- context [define_wrap_loop1 ?c ?h (map inj_base bs) ?v] => rewrite (define_loop_spec bs h v); cbn
+    end;
+    destruct (existsb (fun b => b) bs); cbn; split_ifs; reflexivity.
+Qed.
